@@ -2,7 +2,7 @@
 # tools/sweep.sh <quick|thorough> [seed]  — run every check once, summarise.
 cd "$(dirname "$0")/.."
 TIER=${1:-quick}; export VERIF_SEED=${2:-1}
-for id in $(cat tools/built.txt); do
+for id in ${SWEEP_IDS:-$(cat tools/built.txt)}; do
   s=$(date +%s)
   out=$(timeout 3600 ./check.sh $id $TIER 2>&1); code=$?
   e=$(( $(date +%s) - s ))
